@@ -99,11 +99,4 @@ Emit == (AtEnd /\ Interesting) =>
                           pred |-> {[id |-> Rel(lc.id), ecu |-> lc.ecu, st |-> lc.start, kst |-> Key(lc)[1], ksu |-> Key(lc)[2],
                                      org |-> IF HasOrigin(lc) /\ Listed(OriginOf(lc)) THEN Rel(lc.res.id) ELSE 0] : lc \in Table},
                           ok |-> ContractOk, classes |-> Classes])>>)
-
-\* state constraints of the bounded configs: the second ECU sends at most K messages (keeps two-ECU spaces small)
-OtherEcuAtMost(e, k) == Cardinality({i \in 1..Len(inputs) : inputs[i].ecu = e}) <= k
-BAtMost1 == OtherEcuAtMost("B", 1)
-\* quick tier: four messages of ECU A, or up to three messages one of which is of ECU B
-QuickSpace == OtherEcuAtMost("B", 1) /\ (Len(inputs) > 3 => OtherEcuAtMost("B", 0))
-BAtMost2 == OtherEcuAtMost("B", 2)
 =============================================================================
